@@ -206,13 +206,17 @@ type vCtx struct {
 
 func newVCtx() *vCtx { return &vCtx{done: make(chan struct{})} }
 func (c *vCtx) cancel() {
+	vhSyncPoint(1) // context state is lock-protected in real contexts
 	if c.err == nil {
 		c.err = context.Canceled
 		close(c.done)
 	}
 }
 func (c *vCtx) Done() <-chan struct{}             { return c.done }
-func (c *vCtx) Err() error                        { return c.err }
+func (c *vCtx) Err() error {
+	vhSyncPoint(1)
+	return c.err
+}
 func (c *vCtx) Value(key interface{}) interface{} { return nil }
 func (c *vCtx) Deadline() (time.Time, bool)       { return time.Time{}, false }
 
